@@ -114,24 +114,30 @@ func (i *Indexer) initBlocks() error {
 
 func (i *Indexer) Notify(_ context.Context, blk *chain.ExecutedBlock) error {
 	i.mu.Lock()
-	i.insertBlockIntoCache(blk)
+	consecutive := i.insertBlockIntoCache(blk)
 	i.mu.Unlock()
 
-	return i.storeBlock(blk)
+	return i.storeBlock(blk, consecutive)
 }
 
 // insertBlockIntoCache add the given block and its transactions to the
-// cache.
+// cache, and evicts every block that surpasses the retention window.
+// It returns whether the block directly follows the previously inserted
+// block, in which case at most one block (at height - blockWindow) expired.
 // assumes the write lock is held
-func (i *Indexer) insertBlockIntoCache(blk *chain.ExecutedBlock) {
-	if evictedBlk, ok := i.blockHeightToBlock[blk.Block.Hght-i.blockWindow]; ok {
-		// remove the block from the caches
-		delete(i.blockIDToHeight, evictedBlk.Block.GetID())
-		delete(i.blockHeightToBlock, evictedBlk.Block.GetHeight())
-
-		// remove the transactions from the cache.
-		for _, tx := range evictedBlk.Block.Txs {
-			delete(i.txCache, tx.GetID())
+func (i *Indexer) insertBlockIntoCache(blk *chain.ExecutedBlock) bool {
+	consecutive := blk.Block.Hght == i.lastHeight+1
+	if blk.Block.Hght >= i.blockWindow {
+		expiredHeight := blk.Block.Hght - i.blockWindow
+		if consecutive {
+			i.evictBlockFromCache(expiredHeight)
+		} else {
+			// the height jumped: every cached block at or below expiredHeight left the window
+			for height := range i.blockHeightToBlock {
+				if height <= expiredHeight {
+					i.evictBlockFromCache(height)
+				}
+			}
 		}
 	}
 
@@ -145,14 +151,38 @@ func (i *Indexer) insertBlockIntoCache(blk *chain.ExecutedBlock) {
 		}
 	}
 	i.lastHeight = blk.Block.Hght
+	return consecutive
 }
 
-// storeBlock persist the given block to the database, and deletes a block
-// if it surpasses the retention window
-func (i *Indexer) storeBlock(blk *chain.ExecutedBlock) error {
+// evictBlockFromCache removes the block at the given height and its
+// transactions from the cache.
+// assumes the write lock is held
+func (i *Indexer) evictBlockFromCache(height uint64) {
+	evictedBlk, ok := i.blockHeightToBlock[height]
+	if !ok {
+		return
+	}
+	delete(i.blockIDToHeight, evictedBlk.Block.GetID())
+	delete(i.blockHeightToBlock, height)
+	for _, tx := range evictedBlk.Block.Txs {
+		delete(i.txCache, tx.GetID())
+	}
+}
+
+// storeBlock persist the given block to the database, and deletes the blocks
+// that surpass the retention window
+func (i *Indexer) storeBlock(blk *chain.ExecutedBlock, consecutive bool) error {
 	executedBlkBytes, err := blk.Marshal()
 	if err != nil {
 		return err
+	}
+
+	if !consecutive && blk.Block.Hght >= i.blockWindow {
+		// the height jumped: drop every stored block at or below height - blockWindow
+		firstRetainedHeight := blk.Block.Hght - i.blockWindow + 1
+		if err := i.blockDB.DeleteRange(blockEntryKey(0), blockEntryKey(firstRetainedHeight)); err != nil {
+			return err
+		}
 	}
 
 	blkBatch := i.blockDB.NewBatch()
